@@ -166,8 +166,38 @@ def case_blocks(T, n1, n2, max_iters, scaled=False, tol=1e-7):
         T.eq("blocks:A X == B", A @ X, B, dtype=False)
 
 
+def case_view_operator(T, n, max_iters, cols):
+    """a matrix-free operator whose product is a *view* of its operand (the flip J x = x[::-1]): the Krylov basis is stored in the same
+    arrays that products return, so any in-place update of a product corrupts it.  J^2 = I: the Krylov space of a generic b has
+    dimension 2 and GMRES is exact from m = 2 on."""
+    dt = 'float64'
+    A = cola.ops.LinearOperator(np.dtype(dt), (n, n), matmat=lambda X: X[::-1])
+    Jm = K.mat(T, [[K.S(T, 1 if i + j == n - 1 else 0) for j in range(n)] for i in range(n)], dt)
+    from fractions import Fraction as Fr
+    dirs = [[Fr(1), Fr(2), Fr(-2), Fr(1, 2)][:n], [Fr(2), Fr(-1), Fr(1), Fr(3)][:n]]
+    sc = [T.var(f"s{j}", positive=True) for j in range(cols)]
+    for x in sc:
+        T.assume(x >= 1e-2)
+        T.assume(x <= 1e2)
+    if cols == 1:
+        b = K.mat(T, [[sc[0] * K.cst(T, d) for d in dirs[0]]], dt)[0]
+    else:
+        b = K.mat(T, [[sc[j] * K.cst(T, dirs[j][i]) for j in range(cols)] for i in range(n)], dt)
+    X, info = gmres(A, b, max_iters=max_iters, tol=1e-9)
+    T.check("shape", tuple(X.shape) == tuple(b.shape), f"{X.shape}")
+    if max_iters >= 2:
+        T.eq("view-operator: A x == b", Jm @ X, b, dtype=False)
+    r0 = b
+    r = b - Jm @ X
+    nr = (r * r).sum() if cols == 1 else (r * r).sum(axis=0)
+    n0 = (r0 * r0).sum() if cols == 1 else (r0 * r0).sum(axis=0)
+    T.true("view-operator: residual does not exceed the initial one", [nr <= n0] if cols == 1 else [nr[j] <= n0[j] for j in range(cols)])
+
+
 def cases(tier, seed):
     out = []
+    for n, m, c in ((3, 1, 1), (3, 2, 1), (3, 3, 1), (4, 2, 1), (3, 2, 2)):
+        out.append((f"view-operator:n{n}m{m}c{c}", case_view_operator, dict(n=n, max_iters=m, cols=c), dict(max_paths=6)))
     for m in (1, 2, 3, 4):
         out.append((f"sym2:m{m}", case_gmres, dict(n=2, max_iters=m, symbolic_upper=True)))
     out.append(("sym2-symtol:m2", case_gmres, dict(n=2, max_iters=2, symbolic_upper=True, tol="sym")))
